@@ -359,7 +359,18 @@ private:
     bool declaration();
     /** Parse optional label. */
     bool label(bool required = false, const std::string& kind = "");
-    int invariant();
+    /** A label element as read: its kind, its character data and where it stands. */
+    struct label_t
+    {
+        std::string kind;
+        std::string text;
+        bool has_text{false};
+        std::string xpath;
+    };
+    /** Reads an optional label element without parsing its text. */
+    bool readLabel(label_t& label);
+    int parse(const label_t& label, xta_part_t syntax);
+    int invariant(const label_t& label);
     /** Parse optional committed tag. */
     bool committed();
     /** Parse optional urgent tag. */
@@ -629,29 +640,43 @@ bool XMLReader::label(bool required, const std::string& s_kind)
     return false;
 }
 
-int XMLReader::invariant()
+bool XMLReader::readLabel(label_t& label)
+{
+    if (!begin(tag_t::LABEL))
+        return false;
+    /* Get kind attribute. */
+    char* kind = getAttribute("kind");
+    if (kind == nullptr)
+        throw TypeException{"A label must have a \"kind\" attribute"};
+    label.kind = kind;
+    xmlFree(kind);
+    label.xpath = path.str();
+    /* Read the text; it is parsed later. */
+    label.has_text = readContent(label.text);
+    return true;
+}
+
+int XMLReader::parse(const label_t& label, xta_part_t syntax)
+{
+    return parse_XTA(label.text.c_str(), parser, newxta, syntax, label.xpath);
+}
+
+/** The labels of a location in the order in which the builder expects their operands: the rate above the invariant. */
+static int location_label_rank(const std::string& kind) { return kind == "exponentialrate" ? 1 : 0; }
+
+int XMLReader::invariant(const label_t& label)
 {
     int result = -1;
-    if (begin(tag_t::LABEL)) {
-        /* Get kind attribute. */
-        char* kind = getAttribute("kind");
-        if (kind == nullptr)
-            throw TypeException{"A label must have a \"kind\" attribute"};
-        /* Read the text and push it to the parser. */
-        if (std::string content; readContent(content)) {
-            const auto* text = (const xmlChar*)content.c_str();
-            auto kind_sv = std::string_view{kind};
-            // This is a terrible mess but it's too badly designed
-            // to fix at this moment.
-            if (kind_sv == "invariant") {
-                if (parse(text, S_INVARIANT) == 0)
-                    result = 0;
-            } else if (kind_sv == "exponentialrate") {
-                if (parse(text, S_EXPONENTIAL_RATE) == 0)
-                    result = 1;
-            }
+    if (label.has_text) {
+        // This is a terrible mess but it's too badly designed
+        // to fix at this moment.
+        if (label.kind == "invariant") {
+            if (parse(label, S_INVARIANT) == 0)
+                result = 0;
+        } else if (label.kind == "exponentialrate") {
+            if (parse(label, S_EXPONENTIAL_RATE) == 0)
+                result = 1;
         }
-        xmlFree(kind);
     }
     return result;
 }
@@ -756,9 +781,16 @@ bool XMLReader::location()
                 throw TypeException{"Every location must have a unique id attribute value"};
             /* Get name of the location. */
             std::string l_name = name();
-            /* Read the invariant. */
-            while (begin(tag_t::LABEL)) {
-                int res = invariant();
+            /* Read the labels, then parse them invariant first: proc_location takes the rate from the top of
+             * the operand stack and the invariant from below it, whatever order the file lists them in. */
+            std::vector<label_t> labels;
+            for (label_t l; readLabel(l);)
+                labels.push_back(l);
+            std::stable_sort(labels.begin(), labels.end(), [](const label_t& a, const label_t& b) {
+                return location_label_rank(a.kind) < location_label_rank(b.kind);
+            });
+            for (const label_t& l : labels) {
+                int res = invariant(l);
                 l_invariant |= res == 0;
                 l_exponentialRate |= res == 1;
             }
